@@ -14,10 +14,15 @@ Ev == T.events[l]
 AsFs(x) == [f \in Files |-> x[f]]
 AsRows(x) == [t \in TableSet |-> x[t]]
 AsObj(o) == [fname |-> o.fname, rows |-> AsRows(o.rows), pairs |-> o.pairs]
+AsCells(x) == [t \in TableSet |-> x[t]]      \* per table, per row, per column: [kind, arr, v] as abstracted from the real values
+(* the recorded cells of an object are those the table set of the trace gives to its rows *)
+CellsAgree(o, rows) == AsCells(o.cells) = TableCells(T.tset, rows)
 
 TraceInit ==
   /\ tid \in 1..Len(Traces)
   /\ l = 1
+  /\ T.tset \in TableSetNames
+  /\ CellsAgree(T.init.obj, AsRows(T.init.obj.rows))
   /\ fs = AsFs(T.init.fs)
   /\ obj = AsObj(T.init.obj)
   /\ model = [rows |-> AsRows(T.init.obj.rows), pairs |-> T.init.obj.pairs]
@@ -29,6 +34,7 @@ Match(A) == /\ A
             /\ last'.out = Ev.out
             /\ fs' = AsFs(Ev.fs)
             /\ obj' = AsObj(Ev.obj)
+            /\ CellsAgree(Ev.obj, obj'.rows)
             /\ Ev.bytes_prefix
 P == Ev.pairs
 R == AsRows(Ev.rows)
@@ -41,6 +47,8 @@ TraceNext ==
      \/ Ev.op = "delete" /\ Match(ExternalDelete(Ev.f))
      \/ Ev.op = "reread" /\ Match(ReRead)
                          /\ [rows |-> AsRows(Ev.reread.rows), pairs |-> Ev.reread.pairs] = Content(fs[obj.fname].lines)
+                         /\ LET fr == FreshRead(T.tset, fs, obj)
+                            IN fr.readable /\ AsRows(Ev.reread.rows) = fr.rows /\ Ev.reread.pairs = fr.pairs /\ AsCells(Ev.reread.cells) = fr.cells
 TraceSpec == TraceInit /\ [][TraceNext]_tvars
 
 TPrefixPreserved == [][\A f \in Files : (fs[f].exists /\ fs'[f].exists) => IsPrefix(fs[f].lines, fs'[f].lines)]_tvars
